@@ -59,6 +59,8 @@ pub enum Call
     WorldTriggerRes(u8),
     WorldResNoreact(u8, u8),
     Despawn(u8),
+    /// every read-only / non-reacting world-level resource accessor in a row (must agree, must not trigger)
+    WorldResReads(u8),
 }
 
 #[derive(Debug, Clone, PartialEq, Eq, Hash, Serialize, Deserialize)]
@@ -129,6 +131,19 @@ impl RVal for RB { fn new(v: u8) -> Self { RB(v) } fn v(&self) -> u8 { self.0 } 
 
 fn bump(v: u8) -> u8 { (v + 1) % 3 }
 
+/// Read-only and explicitly non-reacting world-level accessors: they agree with each other and trigger nothing.
+fn world_reads<R: RVal>(w: &mut World)
+{
+    let v = w.react_resource::<R>().v();
+    let ok = w.contains_react_resource::<R>()
+        && w.get_react_resource::<R>().map(|r| r.v()) == Some(v)
+        && w.get_react_resource_noreact::<R>().map(|r| r.v()) == Some(v)
+        && w.get_react_resource_or_insert_with::<R>(|| R::new(9)).v() == v
+        && w.react_resource::<R>().v() == v;
+    let _ = (w.is_react_resource_added::<R>(), w.is_react_resource_changed::<R>());
+    assert!(ok, "world-level read accessors of a reactive resource disagree");
+}
+
 /// World-level calls, available in every family (they only queue commands).
 fn world_level(c: &mut Commands, call: Call) -> bool
 {
@@ -145,6 +160,8 @@ fn world_level(c: &mut Commands, call: Call) -> bool
         Call::WorldResNoreact(0, v) => c.queue(move |w: &mut World| w.react_resource_mut_noreact::<RA>().set(v)),
         Call::WorldResNoreact(_, v) => c.queue(move |w: &mut World| w.react_resource_mut_noreact::<RB>().set(v)),
         Call::Despawn(e) => { let e = pool_entity(e); c.queue(move |w: &mut World| { if let Ok(em) = w.get_entity_mut(e) { em.despawn(); } }); }
+        Call::WorldResReads(0) => c.queue(|w: &mut World| world_reads::<RA>(w)),
+        Call::WorldResReads(_) => c.queue(|w: &mut World| world_reads::<RB>(w)),
         _ => return false,
     }
     true
@@ -506,6 +523,7 @@ impl Model
                 Call::TriggerRes(r) | Call::WorldTriggerRes(r) => { exp.cells.push(name); queue.push(Queued::Res(r)); }
                 Call::WorldResNoreact(r, v) => { exp.cells.push(name); queue.push(Queued::ResSet(r, v)); }
                 Call::Despawn(e) => { exp.cells.push(name); queue.push(Queued::Despawn(e % n)); }
+                Call::WorldResReads(_) => { exp.cells.push(name); }
             }
         }
         for q in queue
@@ -713,8 +731,9 @@ pub fn decode(bytes: &[u8], max_steps: usize, max_calls: usize) -> AccCase
             let call = if k % 5 == 4
             {
                 // world-level
-                match below(byte(&mut u), 7)
+                match below(byte(&mut u), 8)
                 {
+                    7 => Call::WorldResReads(r),
                     0 | 1 => Call::Insert(e, c, v),
                     2 => Call::TriggerMutation(e, c),
                     3 => Call::TriggerRes(r),
